@@ -15,7 +15,7 @@ env  : {"classes":[{"id","name","bases","mro","qualname"}], "excs":[{"id","cls",
         "extractors":[{"cls","fields","failAt":[[k,excId]]}], "serFail":[[k,excId]], "destFail":[[d,k,excId]]}
 All randomness comes from the `rng` passed in.
 """
-from .sysinterp import builtin_classes
+from .sysinterp import builtin_classes, construct_exc
 
 DEFAULT_PROFILE = dict(
     max_depth=4, max_stmts=18, n_dests=(1, 3), p_dest_fail=0.15, p_typed=0.3, p_ser_fail=0.12,
@@ -36,7 +36,7 @@ def gen_classes(rng):
     n = rng.randint(2, 6)
     for i in range(n):
         for _ in range(10):
-            pool = [c for c in pyc if c < 100] + [101, 101, 101, 100, 102, 103, 104, 107]
+            pool = [c for c in pyc if c < 100] + [101, 101, 101, 100, 102, 103, 104, 107, 109]
             nb = 1 if rng.random() < 0.7 else 2
             bases = []
             for _ in range(nb):
@@ -72,14 +72,14 @@ def gen_classes(rng):
 def gen_env(rng, prof):
     classes, pyc = gen_classes(rng)
     gen_ids = [c["id"] for c in classes if c["id"] < 100]
-    raisable = gen_ids + [102, 103, 104, 107, 101]
+    raisable = gen_ids + [102, 103, 104, 107, 101, 109, 109]
     excs = []
     for i in range(8):
         c = rng.choice(gen_ids if rng.random() < 0.75 else raisable)
         if c < 100:
             s = None if rng.random() < prof["p_str_raises"] else "exc%d" % i
         else:
-            s = str(pyc[c]("exc%d" % i))
+            s = str(construct_exc(pyc[c], "exc%d" % i))
         excs.append(dict(id=i, cls=c, str=s, str_base=(s is None and rng.random() < 0.4)))
     # failure exceptions of callbacks: ids 8..11, plain generated Exception subclasses mostly
     exc_classes = [c for c in gen_ids if issubclass(pyc[c], Exception)] or [107]
@@ -89,7 +89,7 @@ def gen_env(rng, prof):
         c = rng.choice(exc_classes + [107]) if i < 10 else rng.choice(exc_classes + gen_ids + [107, 103])
         s = ("cb%d" % i) if (c >= 100 or rng.random() > prof["p_str_raises"]) else None
         if c >= 100:
-            s = str(pyc[c]("exc%d" % i))
+            s = str(construct_exc(pyc[c], "exc%d" % i))
         excs.append(dict(id=i, cls=c, str=s))
     extractors = []
     for c in gen_ids + [101, 100]:
@@ -371,6 +371,11 @@ def gen_case(rng, profile=None):
         prog.append(cont)
     if not pg.added or rng.random() < 0.3:
         prog += pg.dest_ops()
+    # destinations that compare equal although they are different objects (two fresh dataclass collectors, two empty
+    # list-subclass sinks): only in programs that never unregister - `remove_destination` goes by equality on purpose
+    # (a bound method is a new object at every attribute access), so there equal means "the same"
+    env["eqDests"] = stats(prog)["ops"].get("removeDest", 0) == 0 and rng.random() < 0.3
+    env["sameExcObj"] = rng.random() < 0.3
     return dict(env=env, prog=prog)
 
 
